@@ -1,7 +1,7 @@
 """C19 - IBD segments are exactly the maximal shared-path intervals of each sample pair (structural clauses)."""
 from __future__ import annotations
 
-from . import lib_ibd, lib_guards, lib_gate, lib_module, lib_py, lib_err
+from . import scopes, lib_ibd, lib_guards, lib_gate, lib_module, lib_py, lib_err
 
 LEVEL = "other"
 EXPLANATION = ("Exact sample / partition id guards and the integrity gate on the ibd_segments paths, counter pairing so the "
@@ -15,6 +15,7 @@ FUNCS = {"tsk_ibd_finder_init_samples_from_set", "tsk_ibd_finder_init_between", 
 def run(ctx):
     P = ctx.program()
     py = ctx.python()
+    ps, ms = scopes.py_scope("C19"), scopes.module_scope("C19")
     seen = lib_guards.analyse(ctx, P, funcs=FUNCS)
     lib_guards.presence(ctx, seen, funcs=FUNCS)
     lib_gate.gate(ctx, P, only={"tsk_table_collection_ibd_within", "tsk_table_collection_ibd_between", "tsk_ibd_finder_init"})
@@ -22,12 +23,12 @@ def run(ctx):
     lib_ibd.ancestry_append(ctx, P)
     lib_ibd.widening(ctx, P, tus=["tables"])
     lib_module.options_plumbing(ctx, P, funcs={"TableCollection_ibd_segments_within", "TableCollection_ibd_segments_between"})
-    lib_module.array_flags(ctx, P)
-    lib_module.parsed_used(ctx, P)
+    lib_module.array_flags(ctx, P, only=ms)
+    lib_module.parsed_used(ctx, P, only=ms)
     lib_err.discipline(ctx, P, ["tables"], funcs={f.name for f in P.tus["tables"].funcs.values() if "ibd" in f.name or "identity_segments" in f.name})
-    lib_py.kw_forward(ctx, py, mods=("trees", "tables"))
-    lib_py.unused_params(ctx, py, mods=("trees", "tables"))
-    lib_py.ll_positional(ctx, py, P)
+    lib_py.kw_forward(ctx, py, mods=("trees", "tables"), only=ps)
+    lib_py.unused_params(ctx, py, mods=("trees", "tables"), only=ps)
+    lib_py.ll_positional(ctx, py, P, only=ps)
     # accessors that need stored pairs / segments raise the dedicated errors
     tu = P.tus["tables"]
     rule = "IBD-NOT-STORED"
